@@ -1,6 +1,6 @@
 """C13 — the AST walker visits every table, expression and subquery once, in textual order."""
 import json, os, sys
-from tools.harness import common, streams, walkspec, walkrun
+from tools.harness import common, streams, walkspec, walkrun, walkhist
 from tools.harness.common import DIALECTS
 
 ID = 'C13'
@@ -9,7 +9,10 @@ THEOREMS = ['MindsVerif.Props.C13.' + n for n in (
     'C13_lifting', 'C13_once', 'C13_unchanged', 'C13_of_schemaOK', 'C13_partial', 'C13_trace', 'C13_no_none_call', 'phi13', 'phi13_rest',
     'phi13_uniform', 'phi13_clean', 'phi13_truthy', 'C13_replace', 'C13_falsy_answer', 'phi13_samples', 'C13_samples_textual', 'C13_regress_order', 'C13_regress_coverage',
     'C13_regress_window', 'C13_regress_cte', 'walk_congr', 'C13_review_once_reordered', 'C13_review_replace_reordered',
-    'phi13_reordered')]
+    'phi13_reordered',
+    'C13_deep_ops', 'C13_deep_calls', 'C13_deep_subqueries', 'C13_deep_joins', 'C13_deep_casts', 'C13_deep_case', 'C13_any_depth',
+    'C13_cut_eq', 'C13_cut_nothing', 'C13_cut_witness', 'C13_history_free', 'C13_abort_prefix', 'C13_abort_expected',
+    'C13_ctr_fresh', 'C13_history_witness')]
 ASSUME = [
     'Tie B: Gen/Schema.lean is probed from behaviour (tools/extract/x_schema.py); the uniformity assumption (a class is '
     'walked / printed the same whatever its children are) is checked by phi13_uniform and by the correspondence stream '
@@ -21,6 +24,13 @@ ASSUME = [
     'spliced into Select.targets are outside the model); Python truthiness of an answer is modelled (`truthyIn`: an instance '
     'of a class with __len__/__bool__ is falsy when it has no children) and pinned: by introspection no AST class defines '
     '__len__/__bool__ (phi13_truthy, probe:no-falsy-node-class); which positions use `… or child` is probed with a falsy answer',
+    'depth and process history: the model walker is a pure structural recursion — no depth parameter, no state between calls '
+    '(C13_any_depth, C13_deep_*, C13_cut_eq, C13_history_free).  That the code shares this is tied by two streams '
+    '(tools/harness/walkhist.py): parser trees nested 300 … 440 levels (the unchanged walker needs one interpreter frame per level; '
+    'the library runs under the interpreter\'s ordinary recursion limit, only the harness\'s own recursion under a raised one) and a '
+    'process history of walks aborted by an exception of the visitor at random depths / nested walks / planned and rejected '
+    'statements, after which ordinary walks must give what they gave before (thorough tier: and in a fresh interpreter) and what the '
+    'Lean walker gives; deeper trees and other kinds of hidden state than these streams exercise are not covered by a theorem about the code',
     'rose trees carry no aliasing: parser trees that share a sub-object (e.g. Star of `t.*` after copy) are skipped by the '
     'correspondence and by the oracle (counted in the distribution)',
 ]
@@ -31,7 +41,7 @@ def kf_match(k, f):
     return s.get('cls') == f.get('cls') and s.get('slot') == f.get('slot') and s.get('dev') == f.get('dev')
 
 
-def trees(chk, n_sent, tag='C13'):
+def trees(chk, n_sent, tag='C13', n_deep=0):
     """parser-produced trees: corpus + grammar-derived sentences of every dialect"""
     from mindsdb_sql import parse_sql
     A = walkspec.astnode()[0]
@@ -53,12 +63,125 @@ def trees(chk, n_sent, tag='C13'):
             except Exception:
                 continue
             yield d, dict(src='c12shape', text=text), t, rng
+        # depth stream: trees nested 300 … 440 levels (the theorems are about every tree; the unchanged walker needs one
+        # interpreter frame per level)
+        drng = common.rng_for(chk.seed, '%s/deep/%s' % (tag, d))
+        for case, t, dep in walkhist.deep_trees(drng, d, n_deep):
+            case['depth'] = dep
+            yield d, case, t, drng
 
 
 def probe_text(schema, dialect, text, rng, n_rep=3):
     from mindsdb_sql import parse_sql
     t = parse_sql(text, dialect)
     return walkrun.oracle(schema, t, rng, n_rep)
+
+
+def history_stream(chk, schema, pool, deep_pool, deferred, lines, metas, dist, quick, broken):
+    """walks aborted by an exception from the visitor (any depth, also nested walks and planner rejections) interleaved with
+    ordinary walks in the same process: every ordinary walk must give what it gave before the history (and what the Lean
+    walker gives: the repeated walks are appended to the correspondence lines)"""
+    if not pool:
+        chk.oblige('probe:history-stream', 'probe', False, 'no statements for the history stream')
+        return
+    rng = common.rng_for(chk.seed, 'C13/history')
+    n_events = (400 if quick else 6000) * (3 if quick and broken else 1)
+    deep_pool = [(d, text, [dp[k] for k in range(len(dp))]) for d, text, dp in deep_pool]
+    victims = []
+    hist_pool = list(pool)
+
+    def pick_x(depths, visited_only=True):
+        return rng.randrange(1, len(depths))
+    for d, text, depths in rng.sample(pool, min(len(pool), 8 if quick else 40)):
+        victims.append(walkhist.Victim(schema, d, text, 'log', None))
+        victims.append(walkhist.Victim(schema, d, text, rng.choice(['rep', 'rept', 'repf']), pick_x(depths)))
+    for d, text, depths in rng.sample(deep_pool, min(len(deep_pool), 2 if quick else 8)):
+        victims.append(walkhist.Victim(schema, d, text, 'log', None))
+    for _ in range(2 if quick else 10):
+        (d, text, depths), (d2, text2, _) = rng.choice(pool), rng.choice(pool)
+        victims.append(walkhist.Victim(schema, d, text, 'nested', pick_x(depths), inner=(d2, text2)))
+    same = rng.sample(pool, min(len(pool), 3 if quick else 12))      # the tree objects the aborted walks were made on
+    for d, text, depths in same:
+        v = walkhist.Victim(schema, d, text, 'log', None)
+        v.same_object = True
+        victims.append(v)
+    before = [v.run() for v in victims]
+    events = walkhist.make_history(rng, hist_pool, deep_pool, n_events)
+    # the aborted walks of the correspondence (`raise <x>` lines) are part of the history: as events they are plain `abort`s
+    logged = {}
+    for d, case, c, x in deferred:
+        ev = ['abort', d, case['text'], x]
+        logged[id(ev)] = (d, case, c, x)
+        events.append(ev)
+    rng.shuffle(events)
+    for d, text, depths in same:
+        events.insert(rng.randrange(len(events) // 2), ['abort', d, text, rng.randrange(len(depths))])
+    cache = {}
+    outcomes = {}
+    reported = set()
+
+    def check(i, which):
+        for j in which:
+            v = victims[j]
+            reuse = cache.get((v.d, v.text)) if getattr(v, 'same_object', False) else None
+            after = v.run(reuse=reuse)
+            chk.count(('history', i, j))
+            if after != before[j] and (v.mode, getattr(v, 'same_object', False)) not in reported:
+                reported.add((v.mode, getattr(v, 'same_object', False)))
+                spec = v.spec()
+                spec['same_object'] = bool(getattr(v, 'same_object', False))
+                det = walkhist.diff(before[j], after)
+                f = dict(desc='query_traversal: the walk of a statement (%s) gives another result after %d earlier calls in the '
+                              'same process (walks aborted by an exception of the visitor, nested walks, planned / rejected '
+                              'statements) — %s' % (v.mode, i, det),
+                         dialect=v.d, text=v.text, cls=type(v.case.root).__name__, slot='*', dev='history', detail=det,
+                         victim=spec, history=events[:i], **{'class': 'history/%s%s' % (v.mode, '/same-object' if spec['same_object'] else '')})
+                chk.classify(f, kf_match)
+                chk.failures.insert(0, f)       # reported first: it says what the other deviations of this run may come from
+            elif after == before[j] and v.mode in ('log', 'rep', 'rept', 'repf') and i == len(events) and 'error' not in after:
+                # … and what the Lean walker gives
+                lines.append('%s%s | %s' % (v.mode, '' if v.arg is None else ' %d' % v.arg, v.case.text))
+                metas.append((v.d, dict(src='history', text=v.text), v.mode, v.arg, after))
+        return bool(reported)
+    step = max(20, len(events) // 12)
+    for i, ev in enumerate(events):
+        try:
+            if id(ev) in logged:
+                d, case, c, x = logged[id(ev)]
+                r, num = c.fresh()
+                real = walkrun.real_walk(schema, r, num, 'raise', x)
+                lines.append('raise %d | %s' % (x, c.text))
+                metas.append((d, case, 'raise', x, real))
+                dist['corr/raise'] = dist.get('corr/raise', 0) + 1
+                o = 'aborted' if real['r'] == '!' else 'no-raise'
+            else:
+                o = walkhist.run_event(schema, ev, cache)
+        except Exception as e:
+            o = 'error:%s' % type(e).__name__
+        outcomes['%s/%s' % (ev[0], o)] = outcomes.get('%s/%s' % (ev[0], o), 0) + 1
+        if (i + 1) % step == 0 and i + 1 < len(events):
+            if check(i + 1, rng.sample(range(len(victims)), min(4, len(victims)))):
+                break
+    else:
+        check(len(events), range(len(victims)))
+    for f in chk.failures:
+        if f.get('dev') == 'history' and 'confirmed' not in f:
+            walkhist.confirm_history(f, events, len(f['history']))
+            f['desc'] += ' [%s]' % f['confirmed']
+    for k, v in outcomes.items():
+        dist['history/' + k] = v
+    dist['history/victims'] = len(victims)
+    # nothing of the stream may be vacuous: walks were really aborted (at depth), statements really rejected
+    ok = outcomes.get('abort/aborted', 0) >= len(events) // 4 and any(k.startswith('plan/') and not k.endswith('/planned') for k in outcomes)
+    chk.oblige('probe:history-stream', 'probe', ok or bool(reported), json.dumps(outcomes))
+    if not quick or broken:
+        # the same walks in a fresh interpreter (no history at all)
+        specs = [v.spec() for v in victims]
+        fresh = walkhist.fresh_process(None, specs)
+        bad = [j for j, (a, b) in enumerate(zip(before, fresh)) if a != b]
+        chk.oblige('probe:fresh-process', 'probe', not bad,
+                   '' if not bad else 'walk %s of %r differs from the same walk in a fresh process: %s'
+                   % (victims[bad[0]].mode, victims[bad[0]].text[:200], walkhist.diff(fresh[bad[0]], before[bad[0]])))
 
 
 def run(chk):
@@ -76,12 +199,20 @@ def run(chk):
     dist = {}
     n_trees = 0
     seen_fail = set()
-    for d, case, t, rng in trees(chk, n_sent):
+    n_deep = (5 if quick else 40) * (3 if quick and broken else 1)
+    pool, deep_pool, deferred = [], [], []          # statements / aborted walks for the history stream
+    for d, case, t, rng in trees(chk, n_sent, n_deep=n_deep):
         n_trees += 1
         src = case['src'].split(':')[0].split('+')[0]
+        deep = 'depth' in case
+        if deep:
+            dist['deep/%s' % case['src'].split(':')[1].split('/')[0]] = dist.get('deep/%s' % case['src'].split(':')[1].split('/')[0], 0) + 1
+            dist['deep/depth>=%d' % (case['depth'] // 50 * 50)] = dist.get('deep/depth>=%d' % (case['depth'] // 50 * 50), 0) + 1
         # ---- impl-level oracle
         try:
-            fails, st = walkrun.oracle(schema, t, rng, 3 if quick else 4)
+            fails, st = walkrun.oracle(schema, t, rng, (2 if deep else 3) if quick else 4)
+            if st.get('retried'):
+                dist['oracle/recursion-retry'] = dist.get('oracle/recursion-retry', 0) + 1
         except Exception as e:
             fails, st = [], dict(skipped='oracle raised %s' % type(e).__name__)
         if 'skipped' in st:
@@ -112,10 +243,19 @@ def run(chk):
             dist['corr/skipped/' + why] = dist.get('corr/skipped/' + why, 0) + 1
             continue
         n = len(c.num.nodes)
+        if deep:
+            deep_pool.append((d, case['text'], c.depths()))
+        elif len(pool) < 400 and n > 1 and rng.random() < 0.3:
+            dp = c.depths()
+            pool.append((d, case['text'], [dp[k] for k in range(n)]))
         modes = [('log', None)]
         if n > 1:
-            for x in sorted(set(rng.randrange(1, n) for _ in range(2 if quick else 4))):
+            for x in sorted(set(rng.randrange(1, n) for _ in range(1 if deep else 2 if quick else 4))):
                 modes.append((rng.choice(['rep', 'rep', 'rept', 'repf']), x))
+            if deep or rng.random() < (0.4 if quick else 0.1):
+                # a visitor that raises in the middle of the walk (at any depth): the calls before it, the exception, the
+                # tree.  An aborted walk is process history: it is made in the history stream, after the ordinary walks
+                deferred.append((d, case, c, rng.randrange(0, n)))
         for m, a in modes:
             r, num = c.fresh()
             try:
@@ -127,9 +267,20 @@ def run(chk):
             dist['corr/' + m] = dist.get('corr/' + m, 0) + 1
     dist['trees'] = n_trees
     dist['classes_in_schema'] = len(schema['classes'])
+    # ---- history stream: aborted walks interleaved with ordinary ones in this process
+    import time
+    t_h = time.time()
+    dist['time/main-stream'] = round(t_h - chk.t0, 1)
+    try:
+        history_stream(chk, schema, pool, deep_pool, deferred, lines, metas, dist, quick, broken)
+    except Exception as e:
+        chk.oblige('probe:history-stream', 'probe', False, 'history stream failed: %s: %s' % (type(e).__name__, e))
+    dist['time/history-stream'] = round(time.time() - t_h, 1)
     # ---- the model side
     try:
+        t_l = time.time()
         outs = common.lean_run('Walk', lines)
+        dist['time/lean-driver'] = round(time.time() - t_l, 1)
         diverged, first = 0, None
         for (d, case, m, a, real), o in zip(metas, outs):
             mod = walkrun.parse_model(o)
@@ -173,6 +324,12 @@ def replay(path):
         print(json.dumps(data, indent=1)[:3000])
         return 1
     schema = walkrun.load_schema()
+    if f.get('dev') == 'history':
+        # in a fresh interpreter: the walk, then the recorded history, then the same walk again
+        r = walkhist.replay_in_fresh_process(os.path.abspath(path))
+        print('REPRODUCED' if not r['same'] else 'not reproduced', f['dialect'], repr(f['text'][:300]), f['victim']['mode'],
+              'history of %d calls %s;' % (len(f['history']), json.dumps(r['outcomes'])), r['diff'])
+        return 0 if r['same'] else 1
     rng = common.rng_for(0, 'replay')
     fails, _ = probe_text(schema, f['dialect'], f['text'], rng, 50)
     hit = [x for x in fails if (x['cls'], x['slot'], x['dev']) == (f['cls'], f['slot'], f['dev'])]
